@@ -36,30 +36,57 @@ def run(chk, prog):
     s = I.scan(rp)
     idx = A.index(rp)
     # ---- R1 -------------------------------------------------------------------------------------
-    sw = [x for x in A.walk(rp["body"]) if x["k"] == "SwitchStmt"]
-    A.require(len(sw) == 1 and (A.declref(sw[0]["cond"]) or {}).get("name") == "rank", "readPhaseSpace: switch over the rank not found")
-    from .common import switch_cases
-    ncases = 0
-    for labels, stmts, line in switch_cases(sw[0]):
-        rank = labels[0]
-        if not isinstance(rank, int):
+    # per accepted rank: the stores to ps_offset / ps_ext, whether the ranks are told apart by a switch or by an if-chain; the
+    # elements are read as values, so steps given a name (first_record = (n + use_step) % n) count as what they stand for
+    rank_decl = [d_ for x in A.walk(rp["body"]) if x["k"] == "DeclStmt" for d_ in x["decls"] if d_.get("name") == "rank"]
+    rank_decl = rank_decl[0]["decl"] if rank_decl else None
+    us = [a for a in s.accesses if a.kind == "store" and a.base == "use_step" and a.idx is None]
+    nrec = sp.IndexedBase("ps_dims")[0]
+    ustep = sp.Symbol("use_step", real=True)
+
+    def is_wrapped(v):
+        """v == (n_records + k*... + use_step) mod n_records"""
+        if v is None or v.func != sp.Mod:
+            return False
+        a0, a1 = v.args
+        if sp.expand(a1 - nrec) != 0:
+            return False
+        k_ = sp.simplify((a0 - ustep) / a1)
+        return bool(k_.is_Integer)
+    reassigned = len(us) == 1 and is_wrapped(us[0].value)
+    percase = {}
+    for a in s.accesses:
+        if a.kind != "store" or a.base not in ("ps_offset", "ps_ext") or a.idx is not None or a.value_node is None:
             continue
+        il = [y for y in A.walk(a.value_node) if y["k"] == "InitListExpr"]
+        if not il:
+            continue
+        labels = [g_["labels"] for g_, pol in a.guards if isinstance(g_, dict) and g_.get("k") == "SwitchCase" and pol and
+                  (A.declref(g_["cond"]) or {}).get("name") == "rank"]
+        if len(labels) != 1 or len(labels[0]) != 1 or not isinstance(labels[0][0], int):
+            continue
+        percase.setdefault(labels[0][0], {})[a.base] = (il[-1]["inits"], a)
+    ncases = 0
+    for rank, got in sorted(percase.items()):
         ncases += 1
-        got = {}
-        for st in stmts:
-            for x in A.walk(st):
-                if x["k"] == "CXXOperatorCallExpr" and x.get("op") == "=" and len(x.get("args", [])) == 2:
-                    nm = (A.declref(x["args"][0]) or {}).get("name")
-                    il = [y for y in A.walk(x["args"][1]) if y["k"] == "InitListExpr"]
-                    if nm in ("ps_offset", "ps_ext") and il:
-                        inner = il[-1]
-                        got[nm] = [A.show(A.strip(z)).replace(" ", "") for z in inner["inits"]]
-        site = A.loc(rp, {"line": line})
         off, ext = got.get("ps_offset"), got.get("ps_ext")
-        ok = off is not None and len(off) == rank and "use_step" in off[0] and all(t in ("0",) for t in off[1:])
-        chk.check(ok, "R1", site, "rank %d: hyperslab start = (use_step, 0, ..., 0) (%s)" % (rank, off), "readPhaseSpace:rank%d:offset:%s" % (rank, off))
+        site = A.loc(rp, {"line": (off or ext)[1].line})
+        ok = off is not None and len(off[0]) == rank
+        shown = None
+        if ok:
+            vals = [s._try(e_) for e_ in off[0]]
+            shown = [str(v_) for v_ in vals]
+            first = vals[0]
+            ok = all(v_ == 0 for v_ in vals[1:]) and first is not None and ((first == ustep and reassigned) or is_wrapped(first))
+        chk.check(ok, "R1", site, "rank %d: hyperslab start = (chosen record, 0, ..., 0) (%s)" % (rank, shown), "readPhaseSpace:rank%d:offset:%s" % (rank, shown))
         want_ext = ["1"] + (["nBunches"] if rank == 4 else []) + ["ps_size", "ps_size"]
-        chk.check(ext == want_ext, "R1", site, "rank %d: hyperslab count = one full record %s (%s)" % (rank, want_ext, ext), "readPhaseSpace:rank%d:extent:%s" % (rank, ext))
+        ext_t = [A.show(A.strip(z)).replace(" ", "") for z in ext[0]] if ext is not None else None
+        if ext_t is not None and ext_t != want_ext:
+            # spelled through named locals: compare by value
+            ev_ = [str(s._try(z)) for z in ext[0]]
+            wv_ = [str(s._try_name(t_)) if hasattr(s, "_try_name") else t_ for t_ in want_ext]
+            ext_t = want_ext if ev_ == [str(sp.Integer(1))] + [str(sp.Symbol(t_, real=True)) if t_ != "1" else "1" for t_ in want_ext[1:]] else ext_t
+        chk.check(ext_t == want_ext, "R1", site, "rank %d: hyperslab count = one full record %s (%s)" % (rank, want_ext, ext_t), "readPhaseSpace:rank%d:extent:%s" % (rank, ext_t))
     chk.floor("R1-rank-cases", ncases, 2)
     sel = [x for x in A.walk(rp["body"]) if x.get("k") == "CXXMemberCallExpr" and (x.get("callee") or "").endswith("::selectHyperslab")]
     ok = len(sel) == 1 and [A.show(a).replace(" ", "") for a in sel[0]["args"][1:3]] == ["ps_ext.data()", "ps_offset.data()"] and "ps_space" in A.show(A.call_object(sel[0]))
@@ -67,14 +94,13 @@ def run(chk, prog):
     ms = [d for st in A.walk(rp["body"]) if st["k"] == "DeclStmt" for d in st["decls"] if d.get("name") == "memspace"]
     ok = len(ms) == 1 and "ps_ext.data()" in A.show(ms[0]["init"]).replace(" ", "") and "rank" in A.show(ms[0]["init"])
     chk.check(ok, "R1", rp.where, "the memory space has the extent of one record (rank, ps_ext)", "readPhaseSpace:memspace")
-    us = [a for a in s.accesses if a.kind == "store" and a.base == "use_step" and a.idx is None]
-    ok = len(us) == 1 and us[0].value is not None and us[0].value.func == sp.Mod
-    if ok:
-        a0, a1 = us[0].value.args
-        k_ = sp.simplify((a0 - sp.Symbol("use_step", real=True)) / a1)
-        ok = str(a1) == "ps_dims[0]" and k_.is_Integer
-    chk.check(ok, "R1", A.loc(rp, {"line": us[0].line if us else rp["line"]}), "the chosen step is (n_records + use_step) mod n_records: -1 selects the last record (%s)" % (us[0].value if us else None),
-              "readPhaseSpace:use_step")
+    firsts = []
+    for rank, got in percase.items():
+        if got.get("ps_offset"):
+            firsts.append(s._try(got["ps_offset"][0][0]))
+    ok = reassigned or (bool(firsts) and all(is_wrapped(v_) for v_ in firsts))
+    chk.check(ok, "R1", A.loc(rp, {"line": us[0].line if us else rp["line"]}), "the chosen step is (n_records + use_step) mod n_records: -1 selects the last record (%s)"
+              % (us[0].value if us else [str(v_) for v_ in firsts]), "readPhaseSpace:use_step")
     # the step index must arrive as the signed 64-bit number the user gave: "-1 = last record" relies on (n + use_step) wrapping
     # modulo 2^64 in hsize_t arithmetic, which a narrower or unsigned hop on the way (option field, getter, factory parameter,
     # reader parameter) silently turns into (2^32 - 1) mod n
@@ -116,14 +142,19 @@ def run(chk, prog):
     rd = [x for x in A.walk(rp["body"]) if x.get("k") == "CXXMemberCallExpr" and (x.get("callee") or "").endswith("DataSet::read")]
     A.require(len(rd) == 1, "readPhaseSpace: dataset read not found")
     enc = A.enclosing(idx, rd[0], {"IfStmt"})
-    ok = bool(enc) and rd[0]["id"] in {y["id"] for y in A.walk(enc[0]["then"])}
-    ct = A.show(enc[0]["cond"]).replace(" ", "").replace("vfps::", "") if enc else ""
-    ok = ok and ct in ("PhaseSpace::nxyb==ps_space.getSelectNpoints()", "ps_space.getSelectNpoints()==PhaseSpace::nxyb")
+    rc = [c_ for c_ in s.calls if c_.node.get("id") == rd[0]["id"]]
+    A.require(len(rc) == 1, "readPhaseSpace: dataset read not seen by the scanner")
+    # the conditions under which the read is executed (if/else, or an early throw before it), in one form
+    cts = [A.show(g_).replace(" ", "").replace("vfps::", "") for g_, pol in I.plain_guards(rc[0].guards) if pol and isinstance(g_, dict) and g_.get("k") == "BinaryOperator"]
+    ct = [t_ for t_ in cts if "getSelectNpoints" in t_]
+    ct = ct[0] if ct else ""
+    ok = ct in ("PhaseSpace::nxyb==ps_space.getSelectNpoints()", "ps_space.getSelectNpoints()==PhaseSpace::nxyb")
     chk.check(ok, "R1", A.loc(rp, rd[0]), "the read happens only if the grid holds exactly the selected number of cells (%s)" % ct, "readPhaseSpace:read-guard:%s" % ct)
     args = [A.show(a).replace(" ", "") for a in rd[0]["args"]]
     chk.check(args[0] == "ps->getData()" and args[2:4] == ["memspace", "ps_space"], "R1", A.loc(rp, rd[0]), "the record is read into the new grid's data through (memspace, ps_space): %s" % args,
               "readPhaseSpace:read-args:%s" % args)
-    thr = [x for x in A.walk(enc[0].get("else") or {}) if x["k"] == "CXXThrowExpr"] if enc else []
+    thr = [x for i_ in A.walk(rp["body"]) if i_.get("k") == "IfStmt" and "getSelectNpoints" in A.show(i_["cond"])
+           for x in A.walk(i_) if x["k"] == "CXXThrowExpr"]
     chk.check(len(thr) == 1, "R1", A.loc(rp, rd[0]), "a size mismatch throws instead of reading", "readPhaseSpace:mismatch-throws")
     # ---- R2 -------------------------------------------------------------------------------------
     mm = M.MainModel(prog)
